@@ -46,9 +46,16 @@ PROD23 = {'AFREE': '0x29ul', 'AFIN': '0x1u', 'BFREE': '0x7ffbul', 'BFIN': '0x1u'
 # children of a rule of A carry several macro-states of B at the same time (the combinations of finding C07-1)
 UP22 = {'AFREE': '0x16bul', 'BFREE': B8}
 
+# fourth round: A over 2 states {a/0,g/1,f/2}: a->q, a->r, g(q)->q, g(q)->r, f(q,q)->r (only r may be final); B over 3 states: a->p1, a->p2,
+# g(p1)->p1, g(p1)->p2, g(p2)->p2, f(pi,pj)->pf for i,j in {1,2} (only pf may be final): a rule of A that repeats a child state whose
+# macro-states are discovered at different times (the processed set has to be combined with the older sets of the same state)
+REP2 = {'AFREE': '0x417ul', 'AFIN': '0x2u', 'BFREE': '0x%xul' % sum(1 << i for i in (0, 1, 3, 6, 7, 30, 31, 33, 34)), 'BFIN': '0x4u'}
+
 def c07_configs(tier):
     out = []
     out.append(pair(2, 3, [0, 0, 2], **dict(PROD23, ENC=0, SEL=0, SIMSRC=0, _time=1500)))       # 19 bits
+    out.append(pair(2, 3, [0, 1, 2], **dict(REP2, ENC=0, SEL=0, SIMSRC=0, _time=1500)))          # 16 bits
+    if tier == 'thorough': out.append(pair(2, 3, [0, 1, 2], **dict(REP2, ENC=0, SEL=1, SIMSRC=1, _time=1500)))
     if tier == 'thorough': out.append(pair(2, 3, [0, 0, 2], **dict(PROD23, ENC=0, SEL=1, SIMSRC=1, _time=1500)))
     for (enc, sel, src) in IMPLEMENTED:
         k = {'ENC': enc, 'SEL': sel, 'SIMSRC': src}
@@ -93,7 +100,7 @@ CHECKS = {
  'C07': {
   'level': 'model_checking',
   'explanation': 'BDDBottomUpTreeAut::CheckInclusion / BDDTopDownTreeAut::CheckInclusion executed symbolically (MTBDD package, sanitisation, inversion to top-down form, simulation computation included) for every parameter selection on every pair of automata drawn from the rule universes of the configuration (presence bit per rule, finality bit per state); operands loaded through LoadFromString and prepared as cli/operations.hh does (SanitizeAutsForInclusion; for sim=yes the relation the tool computes on UnionDisjointStates, or the identity relation where the library cannot compute one). Implemented selections: the verdict must equal an independent macro-state inclusion oracle on the rule masks (the same oracle semantics as the explicit-encoding check C01); every other selection must end in an exception (of any type) - or, should a future version implement it, in that same exact verdict: never in a wrong one.',
-  'bounds': {'quick': 'pairs (A,B): 1+1 over {a/0,b/0,f/1} and {a/0,b/0,g/2}; 2+1, 1+2 over {a/0,f/1}; 1+2 over {a/0,b/0,g/2} with B restricted to a 6-rule sub-universe in which children are reached by different trees; all rule subsets and final sets (8..12 free bits per query); 8 implemented selections (bottom-up: upward, upward+identity relation, downward+simulation computed by the library; top-down: downward recursive with/without implication cache, with/without identity relation), the unimplemented selections on 1+1 (5 whose exception comes from ComputeSimulation, 11 whose message is built through the Convert stubs); plus (added after the red-team rounds): B6X (one child position of a binary rule of B simulates, the other does not), the joint-cover universes JOINT (2+3 over {a/0,b/0,g/2}, 14 bits) and JOINT3 (2+3 over {a/0,b/0,c/0,g/2}, 15 bits; quick: the plain downward functor with and without relation), PROD23 (2+3 over {a/0,b/0,g/2}, 19 bits: a 2 x 3 product of child tuples in the upward algorithm), calls without caller-side sanitisation for the selections that sanitise themselves, and 8 top-down queries under the heap model that reuses released addresses; one symbol name used with several ranks (a:0 a:1 a:2 on 1+1, a:0 a:1 on 2+1; third red-team round: the arity prefix of the top-down encoding is what keeps such symbols apart); since the repair of C07-1 the two upward selections also run on JOINT, JOINT3 (without relation), the full 2+1 and 1+2 universes over {a/0,g/2} (15 bits) and, without relation, UP22 (2+2 over {a/0,b/0,g/2}, 18 bits: both children of a rule of A carry several macro-states of B)',
+  'bounds': {'quick': 'pairs (A,B): 1+1 over {a/0,b/0,f/1} and {a/0,b/0,g/2}; 2+1, 1+2 over {a/0,f/1}; 1+2 over {a/0,b/0,g/2} with B restricted to a 6-rule sub-universe in which children are reached by different trees; all rule subsets and final sets (8..12 free bits per query); 8 implemented selections (bottom-up: upward, upward+identity relation, downward+simulation computed by the library; top-down: downward recursive with/without implication cache, with/without identity relation), the unimplemented selections on 1+1 (5 whose exception comes from ComputeSimulation, 11 whose message is built through the Convert stubs); plus (added after the red-team rounds): B6X (one child position of a binary rule of B simulates, the other does not), the joint-cover universes JOINT (2+3 over {a/0,b/0,g/2}, 14 bits) and JOINT3 (2+3 over {a/0,b/0,c/0,g/2}, 15 bits; quick: the plain downward functor with and without relation), PROD23 (2+3 over {a/0,b/0,g/2}, 19 bits: a 2 x 3 product of child tuples in the upward algorithm), calls without caller-side sanitisation for the selections that sanitise themselves, and 8 top-down queries under the heap model that reuses released addresses; one symbol name used with several ranks (a:0 a:1 a:2 on 1+1, a:0 a:1 on 2+1; third red-team round: the arity prefix of the top-down encoding is what keeps such symbols apart); REP2 (2+3 over {a/0,g/1,f/2}, 16 bits: a rule f(q,q) of A whose child gets its macro-states at different times; fourth round); since the repair of C07-1 the two upward selections also run on JOINT, JOINT3 (without relation), the full 2+1 and 1+2 universes over {a/0,g/2} (15 bits) and, without relation, UP22 (2+2 over {a/0,b/0,g/2}, 18 bits: both children of a rule of A carry several macro-states of B)',
              'thorough': 'as quick plus 2+2 over {a/0,f/1}, 1+2 over {a/0,b/0,g/2} with an 8-rule sub-universe of B, 2+1 with loader-assigned numbering (up to 16 free bits per query); JOINT / JOINT3 for every implemented selection, PROD23 with a supplied relation, address reuse also for bottom-up downward and on JOINT; UP22 and JOINT3 also with a supplied relation'},
   'outside': 'more than 2 states per operand, rank > 2, more than 3 symbols; simulation relations other than identity / the one the library computes; congruence algorithm, breadth-first order',
   'harnesses': [
